@@ -131,7 +131,7 @@ class MovingWindow(ChangeDetector):
         check_larger_than(0, threshold_scale, "threshold_scale", allow_none=True)
         check_larger_than(0, self.level, "level")
         check_in_interval(
-            pd.Interval(1, max(1, self.bandwidth / 2 - 1), closed="both"),
+            pd.Interval(1, max(1, self.bandwidth / 2), closed="both"),
             self.min_detection_interval,
             "min_detection_interval",
         )
